@@ -36,7 +36,8 @@ from harness import lib_nsdoc as L
 PROPS = 'XsVerif.Props.C17'
 AUDIT = 'XsVerif.Audit.C17'
 LEAN_TARGETS = ['XsVerif.Props.C17', 'drv_c17']
-LEANCHECK = ['XsVerif.Model.NsMapper', 'XsVerif.Lemmas.NsMapper', 'XsVerif.Props.C17']
+LEANCHECK = ['XsVerif.Model.NsMapper', 'XsVerif.Lemmas.NsMapper', 'XsVerif.Lemmas.NsStack', 'XsVerif.Lemmas.NsSpec', 'XsVerif.Lemmas.NsInv',
+             'XsVerif.Lemmas.NsCollapse', 'XsVerif.Lemmas.NsEncode', 'XsVerif.Lemmas.NsDenote', 'XsVerif.Props.C17']
 RULE = ('a case is (document, user namespace map, xmlns_processing mode, converter, parser) or one mapper operation '
         'script; non-trivial = the document redeclares a prefix in an inner scope, binds two prefixes to one URI, '
         'or sets/unsets a default namespace below the root (documents), resp. the script contains a rebind of a '
@@ -228,6 +229,11 @@ def known_match(case: dict, detail: dict) -> Optional[str]:
                 and d.get('data') == '{%s}%s' % (udef, d['document']):
             # C17-F4 (encode side): a no-namespace name is read into the user-supplied default namespace
             return 'C17-F4'
+        if d.get('kind') == 'element' and isinstance(d.get('document'), str) and d['document'][:1] != '{' \
+                and d.get('data') == '{%s}%s' % (L.WILD, d['document']):
+            # C17-F10: the validators re-apply the parent's default namespace to a child name that the converter
+            # resolved to no namespace (xmlns=""), and the wildcard for that namespace admits it
+            return 'C17-F10'
         if conv == 'unordered':
             # C17-F6: two different keys of one parent denote the same expanded name
             def collide(key, item, scope):
@@ -599,6 +605,7 @@ def eval_doc(ctx: Ctx, case: dict, doc: dict, conv: str, mode: str, data: Any, e
         ctx.count('encode not driven for this converter')
         return None
     wild_elems = any(n['tag'][0] == L.WILD for n in L.doc_nodes(doc))
+    wild_any = wild_elems or any(a[0] == L.WILD for n in L.doc_nodes(doc) for a in n['attrs'])
     if conv == 'badgerfish' and wild_elems:
         # xs:anyType children are stored without a list: single-child dicts are taken for wrappers when encoding
         ctx.count('encode not evaluable (badgerfish, wildcard-matched elements: wrapper ambiguity)')
@@ -632,6 +639,15 @@ def eval_doc(ctx: Ctx, case: dict, doc: dict, conv: str, mode: str, data: Any, e
         ctx.known_hit('C17-F8', case)
         ctx.count('known:C17-F8 (encode)')
         return None
+    if elem is None and wild_elems and conv == 'jsonml' and decode_ok and any('Unmatched tag' in str(e) for e in eerrors):
+        # C17-F11: after the level-0 probe reset the context stack, an item's own tag resolves to another name
+        ctx.known_hit('C17-F11', case)
+        ctx.count('known:C17-F11 (encode, unmatched tag)')
+        return None
+    if elem is None and wild_any and any('is not loaded' in str(e) for e in eerrors):
+        # the wildcard namespace has no schema: not a naming question — counted, not judged
+        ctx.count('encode not evaluable (wildcard namespace not loaded)')
+        return None
     if elem is None:
         if decode_ok:
             ctx.failure('decoded data cannot be encoded back', case, {'phase': 'encode', 'errors': [str(e)[:200] for e in eerrors[:2]]})
@@ -662,9 +678,54 @@ def eval_doc(ctx: Ctx, case: dict, doc: dict, conv: str, mode: str, data: Any, e
         # element) read into the default namespace; documents never contain a namespaced z / y
         und = ('z', 'y') if t[0].split('}')[-1] == 'w' else ('z',)
         return [t[0], sorted(a.split('}')[-1] if a.split('}')[-1] in und else a for a in t[1]), sorted((norm9(c) for c in t[2]), key=repr)]
-    if decode_ok and norm9(enc) == norm9(got) and hits.get('C17-F9'):
+    if decode_ok and norm9(enc) == norm9(got) and norm9(enc) != enc:
         ctx.known_hit('C17-F9', case)
         ctx.count('known:C17-F9 (encode)')
+        return None
+
+    def norm10(t):
+        # C17-F10: a declared local name (a, b) never occurs in the wildcard namespace in the documents
+        tag = t[0]
+        if tag.startswith('{%s}' % L.WILD) and tag.split('}')[-1] in L.LOCALS:
+            tag = tag.split('}')[-1]
+        return [tag, t[1], sorted((norm10(c) for c in t[2]), key=repr)]
+    if decode_ok and wild_elems:
+        def lo(t):
+            return [t[0].split('}')[-1], sorted(a.split('}')[-1] for a in t[1]), sorted((lo(c) for c in t[2]), key=repr)]
+        dd = L.first_diff(lo(got), lo(enc))
+        if dd is not None and dd.get('kind') == 'children':
+            # an xs:anyType element with a single child item and no attributes is taken for simple content by the
+            # list/dict conventions (JsonML, BadgerFish): content shape, not naming — counted, not judged
+            ctx.count('encode not evaluable (xs:anyType content shape)')
+            return None
+    if decode_ok and wild_elems and norm10(enc) != enc and norm10(norm9(enc)) == norm10(norm9(got)):
+        ctx.known_hit('C17-F10', case)
+        ctx.count('known:C17-F10 (encode)')
+        if norm9(enc) != enc:
+            ctx.known_hit('C17-F9', case)
+        return None
+    def norm_attr_ns(t):
+        return [t[0], sorted(a.split('}')[-1] for a in t[1]), sorted((norm_attr_ns(c) for c in t[2]), key=repr)]
+    if decode_ok and wild_elems and norm_attr_ns(norm10(enc)) == norm_attr_ns(norm10(got)):
+        # documents with wildcard-matched elements: only the namespaces of unprefixed attribute keys differ (the
+        # C17-F7 / C17-F9 reading of the encoder, combined with C17-F10 element names)
+        for fid in sorted(set(hits) & {'C17-F7', 'C17-F9'}) or ['C17-F9']:
+            ctx.known_hit(fid, case)
+            ctx.count('known:' + fid + ' (encode, combined)')
+        return None
+    def local_only(t):
+        # (a prefix the encoder could not resolve stays in the name: `k:a`)
+        # (two attribute keys that resolve to one name collapse: compare the sets of local names)
+        return [t[0].split('}')[-1].split(':')[-1], sorted({a.split('}')[-1].split(':')[-1] for a in t[1]}),
+                sorted((local_only(c) for c in t[2]), key=repr)]
+    if decode_ok and wild_elems and local_only(enc) == local_only(got):
+        # documents with wildcard-matched elements, same shape and local names, namespaces differ:
+        # C17-F11 (JsonML: the level-0 probe of a wildcard-matched item resets the context stack and every item's
+        # own tag is resolved after its set_xmlns_context) resp. C17-F10 (an unprefixed child name below xmlns=""
+        # inside an element whose wildcard admits the parent's default namespace), possibly with C17-F9
+        fid = 'C17-F11' if conv == 'jsonml' else 'C17-F10'
+        ctx.known_hit(fid, case)
+        ctx.count('known:' + fid + ' (encode)')
         return None
     if not decode_ok:
         # names were already wrong in the data (listed decode finding); the encoder cannot restore them
@@ -911,6 +972,10 @@ def one_document(ctx: Ctx, drv: Optional[Driver], variant: str, doc: dict, xml: 
         reqs.append({'op': 'doc', 'variant': variant, 'mode': mode, 'user': user, 'tree': plain,
                      'prune': bool(prune), 'arule': ARULE})
         pend.append((case, mdoc, trace, data if not errors else None))
+        if tie is not None and any(c['level'] == 0 for c in tie['etrace']['calls'][1:]):
+            # XsdAnyElement.raw_encode probed an item at level 0 (wildcards.py:606, C17-F11): not in the model
+            ctx.count('encode run not compared (level-0 probe call of a wildcard match)')
+            tie = None
         if tie is not None:
             order_like_real(tie['item'], tie['etrace']['calls'])
             ereqs.append({'op': 'enc', 'variant': variant, 'mode': mode, 'item': tie['item'], 'tab': tie['tab'],
@@ -1029,7 +1094,7 @@ def scripts(ctx: Ctx, drv: Optional[Driver], variant: str) -> None:
     n = ctx.pick(5000, 60000)
     reqs, pend = [], []
     setrep = not setitem_stale()
-    fixed = [dict(F2_WITNESS, mode='stacked'), dict(F5_WITNESS, mode='none'), dict(F7_WITNESS, mode='none')]
+    fixed = [dict(F2_WITNESS, mode='stacked'), dict(F5_WITNESS, mode='none'), dict(F7_WITNESS, mode='none', ops=[dict(o, arule=ARULE) for o in F7_WITNESS['ops']])]
     for i in range(n + len(fixed)):
         case = fixed[i] if i < len(fixed) else gen_script(rng)
         try:
